@@ -294,12 +294,11 @@ fn run<T: Form + Serialize + DeserializeOwned + Clone>(case: &J) -> J {
             o["print_model_same"] = json!(format!("{}", print_recon(&asv)) == texts[0]);
             let mut pr = Vec::new();
             for s in texts.iter() {
-                let mut r = read_paths::<T>(s, true);
+                let mut r = read_paths::<T>(s, false);
                 // is the parser's model of the printed text exactly as_value(x)? (if not: a printer /
                 // parser matter, property C09; the composite law is then not demanded)
-                let same = r.get("val").map(|p| *p == val_to_json(&asv)).unwrap_or(false);
+                let same = parse_recognize::<Value>(s.as_str(), false).map(|v| v == asv).unwrap_or(false);
                 r["val_is_asv"] = json!(same);
-                r.as_object_mut().unwrap().remove("val");
                 r["text"] = json!(s);
                 pr.push(r);
             }
